@@ -57,219 +57,235 @@ func fileServerTable(h H) *fsTableResult {
 					if hid&^exist != 0 {
 						continue
 					}
-					if refuse != 0 && (hideMain != 0 || hid != 0 || exist != (1<<n)-1 || refuse&offer != 0) {
-						continue
-					}
-					res.cases++
-					type file struct {
-						name string
-						obj  *aobj
-						info *aobj
-					}
-					files := map[string]*file{}
-					mkFile := func(key, name string) {
-						files[key] = &file{name, &aobj{name: "file:" + name, typ: types.Typ[types.Int], f: map[string]aval{}}, &aobj{name: "info:" + name, typ: types.Typ[types.Int], f: map[string]aval{}}}
-					}
-					mainKey, _ := keyOf(mkStr(base))
-					mkFile(mainKey, "f")
-					var hide []aval
-					if hideMain == 1 {
-						hide = append(hide, mkStr(base))
-					}
-					for i := 0; i < n; i++ {
-						if exist&(1<<i) != 0 {
-							nm := mkStr(append(append([]atom{}, base...), atom{lit: exts[i]}))
-							k, _ := keyOf(nm)
-							mkFile(k, "f"+exts[i])
-							if hid&(1<<i) != 0 {
-								hide = append(hide, nm)
+					for dirs := 0; dirs < 1<<n; dirs++ {
+						// dirs: siblings' names that are directories (f.gz/ next to f) — explored with nothing hidden or refused
+						if dirs&^exist != 0 || (dirs != 0 && (hideMain != 0 || hid != 0 || refuse != 0)) {
+							continue
+						}
+						if refuse != 0 && (hideMain != 0 || hid != 0 || exist != (1<<n)-1 || refuse&offer != 0) {
+							continue
+						}
+						res.cases++
+						type file struct {
+							name string
+							obj  *aobj
+							info *aobj
+						}
+						files := map[string]*file{}
+						mkFile := func(key, name string) {
+							files[key] = &file{name, &aobj{name: "file:" + name, typ: types.Typ[types.Int], f: map[string]aval{}}, &aobj{name: "info:" + name, typ: types.Typ[types.Int], f: map[string]aval{}}}
+						}
+						mainKey, _ := keyOf(mkStr(base))
+						mkFile(mainKey, "f")
+						var hide []aval
+						if hideMain == 1 {
+							hide = append(hide, mkStr(base))
+						}
+						for i := 0; i < n; i++ {
+							if exist&(1<<i) != 0 {
+								nm := mkStr(append(append([]atom{}, base...), atom{lit: exts[i]}))
+								k, _ := keyOf(nm)
+								mkFile(k, "f"+exts[i])
+								if hid&(1<<i) != 0 {
+									hide = append(hide, nm)
+								}
 							}
 						}
-					}
-					var offered []string
-					for i := n - 1; i >= 0; i-- { // offered in the reverse of the priority order, with blanks
-						if offer&(1<<i) != 0 {
-							offered = append(offered, names[i])
+						var offered []string
+						for i := n - 1; i >= 0; i-- { // offered in the reverse of the priority order, with blanks
+							if offer&(1<<i) != 0 {
+								offered = append(offered, names[i])
+							}
+							if refuse&(1<<i) != 0 {
+								offered = append(offered, names[i]+";q=0")
+							}
 						}
-						if refuse&(1<<i) != 0 {
-							offered = append(offered, names[i]+";q=0")
-						}
-					}
-					respHdr := amap{&amapData{vals: map[string]aval{}, keys: map[string]aval{}, typ: hdrT}}
-					var served []*aobj
-					servedEnc := ""
-					errNotExist := aptr{&aobj{name: "err:not-exist", typ: types.Typ[types.Int], f: map[string]aval{}}, ""}
-					fileOf := func(v aval) *file {
-						if i, ok := v.(aiface); ok {
-							v = i.val
-						}
-						p, ok := v.(aptr)
-						if !ok {
+						respHdr := amap{&amapData{vals: map[string]aval{}, keys: map[string]aval{}, typ: hdrT}}
+						var served []*aobj
+						servedEnc := ""
+						errNotExist := aptr{&aobj{name: "err:not-exist", typ: types.Typ[types.Int], f: map[string]aval{}}, ""}
+						fileOf := func(v aval) *file {
+							if i, ok := v.(aiface); ok {
+								v = i.val
+							}
+							p, ok := v.(aptr)
+							if !ok {
+								return nil
+							}
+							for _, f := range files {
+								if f.obj == p.obj || f.info == p.obj {
+									return f
+								}
+							}
 							return nil
 						}
-						for _, f := range files {
-							if f.obj == p.obj || f.info == p.obj {
-								return f
-							}
-						}
-						return nil
-					}
-					env := &absEnv{globals: map[string]*aobj{}, maxSteps: 200000}
-					env.ext = func(callee string, args []aval) (aval, bool) {
-						switch {
-						case callee == "invoke:Open":
-							k, ok := keyOf(args[1])
-							if f, have := files[k]; ok && have {
-								return atuple{aiface{aptr{f.obj, ""}, types.Typ[types.Int]}, anil{}}, true
-							}
-							return atuple{anil{}, errNotExist}, true
-						case callee == "invoke:Stat":
-							if f := fileOf(args[0]); f != nil {
-								return atuple{aiface{aptr{f.info, ""}, types.Typ[types.Int]}, anil{}}, true
-							}
-						case callee == "invoke:IsDir":
-							return abool(false), true
-						case callee == "invoke:Close":
-							return anil{}, true
-						case callee == "os.SameFile":
-							a, b := fileOf(args[0]), fileOf(args[1])
-							return abool(a != nil && a == b), true
-						case callee == "os.IsNotExist":
-							p, ok := args[0].(aptr)
-							return abool(ok && p.obj == errNotExist.obj), true
-						case callee == "os.IsPermission":
-							return abool(false), true
-						case callee == "invoke:Header":
-							return respHdr, true
-						case callee == "(*net/http.Request).Context":
-							return aiface{aptr{&aobj{name: "ctx", typ: types.Typ[types.Int], f: map[string]aval{}}, ""}, types.Typ[types.Int]}, true
-						case callee == "invoke:Value":
-							return aiface{astr("/"), types.Typ[types.String]}, true
-						case callee == "net/http.ServeContent":
-							if f := fileOf(args[4]); f != nil {
-								served = append(served, f.obj)
-							} else {
-								served = append(served, nil)
-							}
-							if sl, ok := respHdr.m.vals["s:Content-Encoding"].(avals); ok && len(sl.cells) > 0 {
-								if s, ok := sl.cells[0].f[""].(astr); ok {
-									servedEnc = string(s)
-								} else {
-									servedEnc = "?"
+						env := &absEnv{globals: map[string]*aobj{}, maxSteps: 200000}
+						env.ext = func(callee string, args []aval) (aval, bool) {
+							switch {
+							case callee == "invoke:Open":
+								k, ok := keyOf(args[1])
+								if f, have := files[k]; ok && have {
+									return atuple{aiface{aptr{f.obj, ""}, types.Typ[types.Int]}, anil{}}, true
 								}
-							}
-							return atuple{}, true
-						case callee == "net/http.Redirect":
-							served = append(served, nil)
-							return atuple{}, true
-						}
-						return nil, false
-					}
-					mk := func() []aval {
-						served, servedEnc = nil, ""
-						respHdr.m.vals, respHdr.m.keys = map[string]aval{}, map[string]aval{}
-						fsv := astruct{map[string]aval{"Root": aiface{aptr{&aobj{name: "root", typ: types.Typ[types.Int], f: map[string]aval{}}, ""}, types.Typ[types.Int]}}}
-						if st, ok := underlying(fsT).(*types.Struct); ok {
-							for i := 0; i < st.NumFields(); i++ {
-								switch st.Field(i).Name() {
-								case "Hide":
-									fsv.f["Hide"] = newVals(hide, types.Typ[types.String])
-								case "IndexPages":
-									fsv.f["IndexPages"] = anil{}
+								return atuple{anil{}, errNotExist}, true
+							case callee == "invoke:Stat":
+								if f := fileOf(args[0]); f != nil {
+									return atuple{aiface{aptr{f.info, ""}, types.Typ[types.Int]}, anil{}}, true
 								}
-							}
-						}
-						reqHdr := amap{&amapData{vals: map[string]aval{}, keys: map[string]aval{}, typ: hdrT}}
-						if len(offered) > 0 {
-							reqHdr.m.vals["s:Accept-Encoding"] = newVals([]aval{astr(strings.Join(offered, ", "))}, types.Typ[types.String])
-							reqHdr.m.keys["s:Accept-Encoding"] = astr("Accept-Encoding")
-						}
-						url := &aobj{name: "url", typ: types.Typ[types.Int], f: map[string]aval{}}
-						req := &aobj{name: "request", typ: reqT, f: map[string]aval{"Header": reqHdr}}
-						req.in = func(o *aobj, path string, t types.Type) aval {
-							if path == "URL" {
-								url.typ = underlying(t).(*types.Pointer).Elem()
-								url.in = func(o *aobj, path string, t types.Type) aval {
-									if path == "Path" {
-										return mkStr(base)
+							case callee == "invoke:IsDir":
+								if f := fileOf(args[0]); f != nil {
+									for i := 0; i < n; i++ {
+										if f.name == "f"+exts[i] && dirs&(1<<i) != 0 {
+											return abool(true), true
+										}
 									}
-									return aunk{"url field " + path}
 								}
-								return aptr{url, ""}
+								return abool(false), true
+							case callee == "invoke:Close":
+								return anil{}, true
+							case callee == "os.SameFile":
+								a, b := fileOf(args[0]), fileOf(args[1])
+								return abool(a != nil && a == b), true
+							case callee == "os.IsNotExist":
+								p, ok := args[0].(aptr)
+								return abool(ok && p.obj == errNotExist.obj), true
+							case callee == "os.IsPermission":
+								return abool(false), true
+							case callee == "invoke:Header":
+								return respHdr, true
+							case callee == "(*net/http.Request).Context":
+								return aiface{aptr{&aobj{name: "ctx", typ: types.Typ[types.Int], f: map[string]aval{}}, ""}, types.Typ[types.Int]}, true
+							case callee == "invoke:Value":
+								return aiface{astr("/"), types.Typ[types.String]}, true
+							case callee == "net/http.ServeContent":
+								if f := fileOf(args[4]); f != nil {
+									served = append(served, f.obj)
+								} else {
+									served = append(served, nil)
+								}
+								if sl, ok := respHdr.m.vals["s:Content-Encoding"].(avals); ok && len(sl.cells) > 0 {
+									if s, ok := sl.cells[0].f[""].(astr); ok {
+										servedEnc = string(s)
+									} else {
+										servedEnc = "?"
+									}
+								}
+								return atuple{}, true
+							case callee == "net/http.Redirect":
+								served = append(served, nil)
+								return atuple{}, true
 							}
-							return aunk{"request field " + path}
+							return nil, false
 						}
-						return []aval{fsv, aiface{aptr{&aobj{name: "writer", typ: types.Typ[types.Int], f: map[string]aval{}}, ""}, types.Typ[types.Int]}, aptr{req, ""}}
-					}
-					desc := fmt.Sprintf("f hidden=%v; client offers %v; siblings exist %s, hidden %s", hideMain == 1, offered, maskNames(exist, exts), maskNames(hid, exts))
-					env.runForks(fn, mk, func(r aval, und string, _ int) bool {
-						if und != "" {
-							if res.other == "" {
-								res.other = desc + ": undecided — " + und
+						mk := func() []aval {
+							served, servedEnc = nil, ""
+							respHdr.m.vals, respHdr.m.keys = map[string]aval{}, map[string]aval{}
+							fsv := astruct{map[string]aval{"Root": aiface{aptr{&aobj{name: "root", typ: types.Typ[types.Int], f: map[string]aval{}}, ""}, types.Typ[types.Int]}}}
+							if st, ok := underlying(fsT).(*types.Struct); ok {
+								for i := 0; i < st.NumFields(); i++ {
+									switch st.Field(i).Name() {
+									case "Hide":
+										fsv.f["Hide"] = newVals(hide, types.Typ[types.String])
+									case "IndexPages":
+										fsv.f["IndexPages"] = anil{}
+									}
+								}
 							}
-							return false
+							reqHdr := amap{&amapData{vals: map[string]aval{}, keys: map[string]aval{}, typ: hdrT}}
+							if len(offered) > 0 {
+								reqHdr.m.vals["s:Accept-Encoding"] = newVals([]aval{astr(strings.Join(offered, ", "))}, types.Typ[types.String])
+								reqHdr.m.keys["s:Accept-Encoding"] = astr("Accept-Encoding")
+							}
+							url := &aobj{name: "url", typ: types.Typ[types.Int], f: map[string]aval{}}
+							req := &aobj{name: "request", typ: reqT, f: map[string]aval{"Header": reqHdr}}
+							req.in = func(o *aobj, path string, t types.Type) aval {
+								if path == "URL" {
+									url.typ = underlying(t).(*types.Pointer).Elem()
+									url.in = func(o *aobj, path string, t types.Type) aval {
+										if path == "Path" {
+											return mkStr(base)
+										}
+										return aunk{"url field " + path}
+									}
+									return aptr{url, ""}
+								}
+								return aunk{"request field " + path}
+							}
+							return []aval{fsv, aiface{aptr{&aobj{name: "writer", typ: types.Typ[types.Int], f: map[string]aval{}}, ""}, types.Typ[types.Int]}, aptr{req, ""}}
 						}
-						status := int64(-1)
-						if tp, ok := r.(atuple); ok && len(tp) == 2 {
-							if v, ok := tp[0].(aint); ok {
-								status = int64(v)
-							}
+						desc := fmt.Sprintf("f hidden=%v; client offers %v; siblings exist %s, hidden %s", hideMain == 1, offered, maskNames(exist, exts), maskNames(hid, exts))
+						if dirs != 0 {
+							desc += ", directories " + maskNames(dirs, exts)
 						}
-						if hideMain == 1 {
-							if len(served) != 0 && res.hidden == "" {
-								res.hidden = desc + ": the hidden file is handed to the client"
+						env.runForks(fn, mk, func(r aval, und string, _ int) bool {
+							if und != "" {
+								if res.other == "" {
+									res.other = desc + ": undecided — " + und
+								}
+								return false
 							}
-							if status != 404 && res.hidden == "" {
-								res.hidden = fmt.Sprintf("%s: status %d instead of 404 for a hidden file", desc, status)
+							status := int64(-1)
+							if tp, ok := r.(atuple); ok && len(tp) == 2 {
+								if v, ok := tp[0].(aint); ok {
+									status = int64(v)
+								}
 							}
-							return true
-						}
-						// expected sibling
-						want := -1
-						for i := 0; i < n; i++ {
-							if offer&(1<<i) != 0 && exist&(1<<i) != 0 && hid&(1<<i) == 0 {
-								want = i
-								break
+							if hideMain == 1 {
+								if len(served) != 0 && res.hidden == "" {
+									res.hidden = desc + ": the hidden file is handed to the client"
+								}
+								if status != 404 && res.hidden == "" {
+									res.hidden = fmt.Sprintf("%s: status %d instead of 404 for a hidden file", desc, status)
+								}
+								return true
 							}
-						}
-						if len(served) != 1 || served[0] == nil {
-							if res.other == "" {
-								res.other = fmt.Sprintf("%s: %d files handed to ServeContent", desc, len(served))
-							}
-							return true
-						}
-						var got *file
-						for _, f := range files {
-							if f.obj == served[0] {
-								got = f
-							}
-						}
-						wantName, wantEnc := "f", ""
-						if want >= 0 {
-							wantName, wantEnc = "f"+exts[want], names[want]
-						}
-						if got == nil || got.name != wantName || servedEnc != wantEnc {
-							gotName := "?"
-							if got != nil {
-								gotName = got.name
-							}
-							msg := fmt.Sprintf("%s: serves %s with Content-Encoding %q, specification says %s with %q", desc, gotName, servedEnc, wantName, wantEnc)
-							isHiddenServed := false
+							// expected sibling
+							want := -1
 							for i := 0; i < n; i++ {
-								if got != nil && got.name == "f"+exts[i] && hid&(1<<i) != 0 {
-									isHiddenServed = true
+								if offer&(1<<i) != 0 && exist&(1<<i) != 0 && hid&(1<<i) == 0 && dirs&(1<<i) == 0 {
+									want = i
+									break
 								}
 							}
-							if isHiddenServed {
-								if res.hidden == "" {
-									res.hidden = msg
+							if len(served) != 1 || served[0] == nil {
+								if res.other == "" {
+									res.other = fmt.Sprintf("%s: %d files handed to ServeContent", desc, len(served))
 								}
-							} else if res.sibling == "" {
-								res.sibling = msg
+								return true
 							}
-						}
-						return true
-					})
+							var got *file
+							for _, f := range files {
+								if f.obj == served[0] {
+									got = f
+								}
+							}
+							wantName, wantEnc := "f", ""
+							if want >= 0 {
+								wantName, wantEnc = "f"+exts[want], names[want]
+							}
+							if got == nil || got.name != wantName || servedEnc != wantEnc {
+								gotName := "?"
+								if got != nil {
+									gotName = got.name
+								}
+								msg := fmt.Sprintf("%s: serves %s with Content-Encoding %q, specification says %s with %q", desc, gotName, servedEnc, wantName, wantEnc)
+								isHiddenServed := false
+								for i := 0; i < n; i++ {
+									if got != nil && got.name == "f"+exts[i] && hid&(1<<i) != 0 {
+										isHiddenServed = true
+									}
+								}
+								if isHiddenServed {
+									if res.hidden == "" {
+										res.hidden = msg
+									}
+								} else if res.sibling == "" {
+									res.sibling = msg
+								}
+							}
+							return true
+						})
+					}
 				}
 			}
 		}
